@@ -342,6 +342,17 @@ class Gen:
         can_flow = flow is not None and is_tup(flow)
         if self.on("spreads") and (tupvars or can_flow) and self.chance(0.45):
             return self.gen_spread(sc, flow, d, tupvars, can_flow)
+        ivars = [v for v in sc.of(lambda t: t == INT) if v in VARS]
+        if ivars and self.on("patterns") and self.chance(0.12):
+            # `[x, k =x, x]`: a field rebinding a variable that its neighbours read - left to right
+            v = self.pick(ivars)
+            k = self.small_int()
+            self.spend(5)
+            self.tags.add("field_binding_order")
+            fs = [A.Field(A.Chain(A.Var(v))), A.Field(A.Chain(A.Int(k), A.Match(A.PId(v)))), A.Field(A.Chain(A.Var(v)))]
+            if self.chance(0.5):
+                fs = fs[1:]
+            return [A.Tup("", *fs)], TT("", [("", ANY)] * len(fs))
         name = self.pick(["", "", ""] + TNAMES)
         n = self.r.randint(1, 3) if not self.low() else 1
         labelled = self.chance(0.5)
@@ -906,7 +917,7 @@ class Gen:
         fsc = Sc(sc.vars, param=P, selfT=None, infn=True)
         if any(t[0] != "fn" for t in sc.vars.values()):
             self.tags.add("closure_scope")
-        flow = None if P == NIL else P
+        flow = P
         style = "rec" if rec_first else self.weighted([(3, lambda: "block"), (2, lambda: "seq"),
                                                        (2 if self.on("tailcalls") else 0, lambda: "rec")])
         if style == "rec" and P == INT and self.chance(0.5):
@@ -964,7 +975,26 @@ class Gen:
             first = A.Branch([A.Chain(A.Tup("", A.Ripple(), A.Int(1)), A.Builtin("__integer_compare__"),
                                       A.Match(A.PInt(-1)))], [A.Chain(*base)])
             dec = [A.Tup("", A.Ripple(), A.Int(self.pick([1, 1, 2]))), A.Builtin(SUB)]
-            shape = self.pick(["plain", "nested", "mid", "committed", "step"])
+            shape = self.pick(["plain", "nested", "mid", "committed", "step", "fallthrough", "fallthrough", "onward"])
+            if shape == "fallthrough" and want != INT:
+                # the callee's result may be nil: it is still the result (no fall-through to the last branch)
+                self.tags.add("tail_call_result_nil_no_fallthrough")
+                self.spend(6)
+                neg = A.Branch([A.Chain(A.Tup("", A.Ripple(), A.Int(0)), A.Builtin("__integer_compare__"),
+                                        A.Match(A.PInt(-1)))], [A.Chain(A.Tup("Neg"))])
+                return A.Expr(neg, A.Branch([A.Chain(A.Match(A.PInt(0)))], [A.Chain(A.NIL)]),
+                              A.Branch([A.Chain(A.Match(A.PInt(1)))], [A.Chain(A.Tup("One"))]),
+                              A.Branch([A.Chain(A.Tup("", A.Ripple(), A.Int(2)), A.Builtin(SUB), A.Tail())]),
+                              A.Branch([A.Chain(A.Tup("Q", A.Ripple()))]))
+            if shape == "onward" and want != INT:
+                # terms / steps written after the tail call never run
+                self.tags.add("tail_call_then_more")
+                self.spend(4)
+                after = self.pick([[A.Chain(*(dec + [A.Tail(), A.Tup("", A.Ripple(), A.Int(5))]))],
+                                   [A.Chain(*(dec + [A.Tail()])), A.Chain(A.Tup("After", A.Ripple()))]])
+                return A.Expr(first, A.Branch(after))
+            if shape in ("fallthrough", "onward"):
+                shape = "plain"
             self.spend(8)
             if shape == "plain":
                 return A.Expr(first, A.Branch([A.Chain(*(dec + [A.Tail()]))]))
@@ -1255,6 +1285,27 @@ def known_pattern(prog):
                 if b and any(has_binding_block([x["cond"], x["cons"]]) for x in d["branches"][i + 1:]):
                     keys.append("locals-shift-after-failed-branch-that-binds")
                     return
+                # ... or the earlier branch binds through a type-ascribed binder `(T)x` (bound before the
+                # type test fails) and a later branch binds at all
+                has_as = [False]
+
+                def as_(x, _):
+                    if x.get("p") == "as":
+                        has_as[0] = True
+                A.walk(br["cond"], as_)
+                later = set()
+                binders_in(d["branches"][i + 1:], later)
+                # ... or it binds in the middle of a chain that then fails (`Q =u =7`)
+                for c in br["cond"]:
+                    for j, t in enumerate(c["terms"][:-1]):
+                        if t.get("t") == "match":
+                            mb = set()
+                            binders_in(t["pat"], mb)
+                            if mb:
+                                has_as[0] = True
+                if has_as[0] and later:
+                    keys.append("locals-shift-after-failed-branch-that-binds")
+                    return
     if not keys:
         A.walk(prog, shifted_locals)
 
@@ -1270,6 +1321,45 @@ def known_pattern(prog):
             A.walk(d["body"], acc)
     if not keys:
         A.walk(prog, captured_member)
+
+    def count_binders(node, counts):
+        if isinstance(node, list):
+            for x in node:
+                count_binders(x, counts)
+            return
+        if not isinstance(node, dict):
+            return
+        if "p" in node:
+            b, p_ = set(), set()
+            _pat_names(node, b, p_)
+            for n in b:
+                counts[n] = counts.get(n, 0) + 1
+            return
+        for v in node.values():
+            count_binders(v, counts)
+    counts = {}
+    count_binders(prog, counts)
+
+    def stale(d, _):
+        # `&g =u =p`: a match applied to the verdict of a match narrows the VARIABLE the first match read
+        if "terms" in d and "t" not in d:
+            ts = d["terms"]
+            for i in range(len(ts) - 2):
+                if ts[i].get("t") in ("access", "ref") and ts[i]["src"]["k"] == "id" \
+                        and ts[i + 1].get("t") == "match" and ts[i + 2].get("t") == "match":
+                    keys.append("match-on-verdict-narrows-source-variable")
+            # `x = n` / `n =x` ... and n is bound again somewhere: the narrowing recorded for the NAME survives
+            if ts and ts[0].get("t") == "access" and ts[0]["src"]["k"] == "id" and not ts[0]["path"] \
+                    and counts.get(ts[0]["src"]["name"], 0) >= 2 \
+                    and (d["pat"] or (len(ts) > 1 and ts[1].get("t") == "match")):
+                keys.append("narrowing-survives-rebinding")
+        # `[...d]` where d is bound more than once: the spread uses the type of the FIRST binding
+        if d.get("t") == "tuple":
+            for f in d["fields"]:
+                if f["f"] == "spread" and f["src"] and counts.get(f["src"], 0) >= 2:
+                    keys.append("spread-of-rebound-variable-uses-old-type")
+    if not keys:
+        A.walk(prog, stale)
     if not keys:
         def star(d, _):
             if d.get("p") == "star":
